@@ -40,7 +40,14 @@ class SectionOutput(Output):
 
         if lines:
             # Multiply lines by 2 to cater for each new line added between content
+            removed_content = self._content[-(lines * 2) :]
             del self._content[-(lines * 2) :]
+            # A removed line can span several rows of the terminal
+            lines = sum(
+                self._count_rows(line_content)
+                for line_content in removed_content
+                if line_content != "\n"
+            )
         else:
             lines = self._lines
             self._content = []
@@ -60,15 +67,18 @@ class SectionOutput(Output):
             content = "\n".join((" " * self._indent + s) for s in content.split("\n"))
 
         for line_content in content.split("\n"):
-            self._lines += (
-                math.ceil(
-                    len(self.remove_format(line_content).replace("\t", "        "))
-                    / self._terminal.width
-                )
-                or 1
-            )
+            self._lines += self._count_rows(line_content)
             self._content.append(line_content)
             self._content.append("\n")
+
+    def _count_rows(self, line_content):  # type: (str) -> int
+        return (
+            math.ceil(
+                len(self.remove_format(line_content).replace("\t", "        "))
+                / self._terminal.width
+            )
+            or 1
+        )
 
     def write(
         self, string, flags=None, new_line=False, with_indent=True
